@@ -137,7 +137,7 @@ structure Space where
   /-- agents in the space: cellular spaces in arrival order (a move is a departure and an arrival),
       continuous spaces in slot order (`_agent_to_index` / `active_agents`) -/
   placed : List Agent
-deriving Repr
+deriving DecidableEq, Repr
 
 /-- the cells of a fresh space; `extra` lists the network nodes / Voronoi centroids -/
 def initCells (fam : Family) (w h : Nat) (extra : List Loc) : List Loc :=
